@@ -1,15 +1,213 @@
-import GqlgenVerif.Model.Upload
+import GqlgenVerif.Lemmas.UploadForm
 import GqlgenVerif.Gen.AddUploadGuards
 import GqlgenVerif.Gen.DecodeSites
 /-!
 # C10 — malformed client input never reaches gqlgen's own panic path
+
+All theorems quantify over **all** variable trees, **all** path strings, **all** part sequences,
+configurations and file-system fault plans (no size or depth bound).
+
+`G` and `Gen.DecodeSites.sites` are regenerated from /repo's source on every run: the theorems about
+them are re-proved against what the code says now. The state machine of `MultipartForm.Do` is a
+hand-written model tied to the code by the correspondence run of `checks/c10.py`.
 -/
 namespace GqlgenVerif.C10
 open GqlgenVerif GqlgenVerif.Upload
 
-/-- the guards the source has today (regenerated by go/extract on every run) -/
+/-- the run-time checks `RawParams.AddUpload` has today (graphql/handler.go, via go/extract) -/
 abbrev G : Guards := Gen.AddUploadGuards.guards
 
-theorem guards_all : G = Guards.all := by decide
+/-! ## RawParams.AddUpload -/
+
+/-- `add_upload_total`: for every variables tree, every path string and every upload value the walk
+ends in `ok` or in an error value — never in a type-assertion, index or nil-map panic. -/
+theorem add_upload_total (v : UV) (path : List Char) (up : UV) : (addUpload G v path up).isPanic = false :=
+  addUpload_total G rfl rfl rfl rfl rfl v path up
+
+/-- Totality holds **exactly** when all five checks are present: dropping any one of them from the
+source re-opens a panic (so the regenerated `G` cannot silently lose one). -/
+theorem add_upload_total_iff_all_guards (g : Guards) :
+    (∀ v segs up, (walk g v segs up).isPanic = false) ↔ g = Guards.all := by
+  constructor
+  · intro h
+    have a := h (.leaf []) [.idx 0] .null
+    have b := h (.arr []) [.idx (-1)] .null
+    have c := h (.arr []) [.idx 0] .null
+    have d := h (.leaf []) [.key []] .null
+    have e := h .nilmap [.key []] .null
+    obtain ⟨g1, g2, g3, g4, g5⟩ := g
+    cases g1 <;> cases g2 <;> cases g3 <;> cases g4 <;> cases g5 <;>
+      first | rfl | (exfalso; revert a b c d e; decide)
+  · intro h v segs up
+    subst h
+    exact walk_total _ rfl rfl rfl rfl rfl segs v up
+
+/-- the code before commit 64f0014 (bare `ptr.([]any)[index]`, `ptr.(map[string]any)[p]`): the
+reproduced defects, kept as witnesses. `{"a":[null,null],"s":"x"}` with `variables.a.5`,
+`variables.a.-1`, `variables.s.x`; and absent variables with `variables.file`. -/
+theorem add_upload_unchecked_witness :
+    (addUpload Guards.none Fixture.vars "variables.a.5".toList (.upload 0)).tag = .panic .indexRange
+    ∧ (addUpload Guards.none Fixture.vars "variables.a.-1".toList (.upload 0)).tag = .panic .indexRange
+    ∧ (addUpload Guards.none Fixture.vars "variables.s.x".toList (.upload 0)).tag = .panic .typeAssert
+    ∧ (addUpload Guards.none Fixture.vars "variables.s.0".toList (.upload 0)).tag = .panic .typeAssert
+    ∧ (addUpload Guards.none .nilmap "variables.file".toList (.upload 0)).tag = .panic .nilMapWrite := by
+  decide
+
+/-- the same inputs today: client errors -/
+example :
+    (addUpload G Fixture.vars "variables.a.5".toList (.upload 0)).tag = .err .badPath
+    ∧ (addUpload G Fixture.vars "variables.a.-1".toList (.upload 0)).tag = .err .badPath
+    ∧ (addUpload G Fixture.vars "variables.s.x".toList (.upload 0)).tag = .err .badPath
+    ∧ (addUpload G .nilmap "variables.file".toList (.upload 0)).tag = .err .badPath
+    ∧ (addUpload G Fixture.vars "file".toList (.upload 0)).tag = .err .noPrefix
+    ∧ (addUpload G Fixture.vars "variables.zz.y".toList (.upload 0)).tag = .err .nilPtr := by
+  decide
+
+/-- `add_upload_sets_exactly_path`: a successful `AddUpload` puts the upload at the addressed
+position and changes the value at no position that is not inside / above it. Holds for any guards
+(it speaks of `ok` outcomes only). -/
+theorem add_upload_sets_exactly_path (g : Guards) (v : UV) (path : List Char) (up v' : UV)
+    (h : addUpload g v path up = .ok v') :
+    ∃ segs, parsePath path = some segs ∧ lookup v' segs = some up ∧
+      ∀ q, Indep segs q → lookup v' q = lookup v q := by
+  obtain ⟨segs, hs, hne, hw⟩ := addUpload_ok h
+  obtain ⟨h1, h2⟩ := walk_ok_frame g segs v up v' hne hw
+  exact ⟨segs, hs, h1, fun q hq => h2 q hq.1 hq.2⟩
+
+/-- non-vacuity: a success exists, and index spellings `+1` / `01` address the same element -/
+example :
+    (addUpload G (.obj [("files".toList, .arr [.null, .null])]) "variables.files.+1".toList (.upload 7)).isOk = true
+    ∧ parsePath "variables.files.01".toList = some [.key "files".toList, .idx 1]
+    ∧ parsePath "variables.files.9223372036854775808".toList = some [.key "files".toList, .key "9223372036854775808".toList] := by
+  decide
+
+/-! ## request envelopes -/
+
+/-- `null_body_is_client_error`: at every site where a transport decodes a request envelope, no
+body class (null / object / undecodable) leads to a panic, and where the target is a pointer the
+JSON value `null` is answered on the transport's decode-error path. -/
+theorem null_body_is_client_error :
+    (∀ s ∈ Gen.DecodeSites.sites, ∀ b, envelope s b ≠ .panic)
+    ∧ (∀ s ∈ Gen.DecodeSites.sites, s.target ≠ .value → envelope s .null = .clientError) := by
+  have h : (∀ s ∈ Gen.DecodeSites.sites, ∀ b ∈ BodyClass.all, envelope s b ≠ .panic)
+      ∧ (∀ s ∈ Gen.DecodeSites.sites, s.target ≠ .value → envelope s .null = .clientError) := by decide
+  exact ⟨fun s hs b => h.1 s hs b (BodyClass.mem_all b), h.2⟩
+
+/-- the five pointer-target decode sites of the design are all still covered by the extractor -/
+theorem decode_sites_cover :
+    ∀ n ∈ ["post", "sse", "mixed", "urlencoded", "ws", "form"], n ∈ Gen.DecodeSites.sites.map (·.name) := by
+  decide
+
+/-- the code before commit ff49996 (`jsonDecode(r, &params)` with `params *RawParams`, no nil check) -/
+theorem null_body_unchecked_witness : envelope ⟨"post", .pointer false⟩ .null = .panic := by
+  decide
+
+/-! ## MultipartForm.Do -/
+
+/-- with today's guards no request makes `Do` take the exit through `Server.ServeHTTP`'s recover -/
+theorem upload_form_never_panics (req : Req) : (run G req).exit.isPanic = false := by
+  have := body_noPanic G (addUpload_total G rfl rfl rfl rfl rfl) req
+  simpa [run] using this
+
+/-- before 64f0014 a single mapped path did it: `{"0":["variables.a.5"]}` over `{"a":[null]}` -/
+theorem upload_form_unchecked_witness :
+    (run Guards.none Fixture.badIndexReq).exit = .panicked .indexRange := by
+  decide
+
+/-- today the same request is a client error -/
+example : (run G Fixture.badIndexReq).exit = .addUpload .badPath := by decide
+
+/-- `tempfiles_removed_on_every_exit`: whatever the request, the configuration and the failures of
+CreateTemp / Close / Open, after the deferred calls no spill file exists and no handle is open. -/
+theorem tempfiles_removed_on_every_exit (g : Guards) (req : Req) :
+    (run g req).final.live = [] ∧ (run g req).final.openH = [] := by
+  have := runDefers_clean (body g req).1 (body_acct g req).tidy
+  simpa [run] using this
+
+/-- `size_limit_enforced` (1): a declared length above MaxUploadSize is refused before anything is
+read, stored or created. -/
+theorem size_limit_enforced_declared (g : Guards) (req : Req) (h : req.contentLength > req.cfg.maxUp) :
+    (run g req).exit = .tooLarge ∧ (run g req).during.off = 0 ∧ (run g req).during.mem = 0
+      ∧ (run g req).during.disk = 0 ∧ (run g req).during.creates = 0 ∧ (run g req).during.readers = [] := by
+  simp [run, body, h]
+
+/-- `size_limit_enforced` (2): on every run, declared length or not, the bytes kept for uploads (in
+memory and on disk) are at most the bytes read, which are at most MaxUploadSize. -/
+theorem size_limit_enforced (g : Guards) (req : Req) :
+    (run g req).during.mem + (run g req).during.disk ≤ (run g req).during.off
+      ∧ (run g req).during.off ≤ req.cfg.budget := by
+  have h := body_acct g req
+  exact ⟨by simpa [run] using h.stored, by simpa [run] using h.budget⟩
+
+/-- `size_limit_enforced` (3): MaxMemory decides where uploads go — bytes are held in memory only
+when the declared length is below MaxMemory, and spilled only otherwise. (An unknown length, -1,
+counts as below: then everything up to MaxUploadSize is held in memory.) -/
+theorem max_memory_decides (g : Guards) (req : Req) :
+    (0 < (run g req).during.mem → req.contentLength < req.cfg.maxMem)
+      ∧ (0 < (run g req).during.disk → ¬ req.contentLength < req.cfg.maxMem) := by
+  have h := body_acct g req
+  exact ⟨by simpa [run] using h.memOnly, by simpa [run] using h.diskOnly⟩
+
+/-- `every_path_gets_own_reader`: when the request reaches the executor, (1) the readers have
+pairwise different identities (`0,1,2,…` in creation order — one reader per mapped path, never a
+shared one), (2) the variables user code sees are exactly the decoded variables with the uploads
+placed one after the other, (3) every path of every entry of the `map` field has a reader created
+for it, (4) each reader serves the part whose form name is the map key, (5) a reader is an
+in-memory one iff the declared length is below MaxMemory, otherwise it is a handle on a spill file
+that exists while user code runs; and nothing of the map is left over. -/
+theorem every_path_gets_own_reader (g : Guards) (req : Req) (h : (run g req).exit = .exec) :
+    ∃ vars0 m, req.ops = .ok vars0 ∧ req.map = .ok m ∧
+      let st := (run g req).during
+      st.readers.reverse.map (·.id) = List.range st.readers.length
+      ∧ applyPaths g vars0 (assignments st) = some st.vars
+      ∧ (∀ k ps, assocGet m k = some ps → ∀ path ∈ ps, ∃ r ∈ st.readers, r.key = k ∧ r.path = path)
+      ∧ (∀ r ∈ st.readers, ∃ p, req.parts[r.part]? = some p ∧ p.name = r.key)
+      ∧ (∀ r ∈ st.readers, (r.file = none ↔ req.contentLength < req.cfg.maxMem) ∧ ∀ f, r.file = some f → f ∈ st.live)
+      ∧ st.pending = [] := by
+  have he : body g req = ((run g req).during, .exec) := by
+    have : (run g req).exit = (body g req).2 := rfl
+    rw [this] at h
+    show body g req = ((body g req).1, Exit.exec)
+    rw [← h]
+  obtain ⟨vars0, m, ho, hm, s0, sc, sp⟩ := body_exec g req _ he
+  refine ⟨vars0, m, ho, hm, ?_, s0.applied, ?_, s0.named, s0.kind, sp⟩
+  · rw [List.map_reverse, s0.ids, List.reverse_reverse]
+  · intro k ps hk
+    rcases sc k ps hk with hl | hr
+    · rw [sp] at hl; cases hl
+    · exact hr
+
+/-- `delivered_at_every_path`: for a well-formed upload — the mapped positions pairwise not inside
+one another — every mapped path holds, in the variables user code sees, the upload of its own
+reader. -/
+theorem delivered_at_every_path (g : Guards) (req : Req) (h : (run g req).exit = .exec)
+    (hind : (assignments (run g req).during).Pairwise
+      (fun a b => ∀ sa sb, parsePath a.1 = some sa → parsePath b.1 = some sb → Indep sa sb)) :
+    ∀ r ∈ (run g req).during.readers, ∃ segs, parsePath r.path = some segs ∧
+      lookup (run g req).during.vars segs = some (.upload r.id) := by
+  obtain ⟨vars0, m, _, _, _, happ, _⟩ := every_path_gets_own_reader g req h
+  intro r hr
+  have hmem : (r.path, r.id) ∈ assignments (run g req).during := by
+    unfold assignments
+    exact List.mem_map.mpr ⟨r, List.mem_reverse.mpr hr, rfl⟩
+  exact applyPaths_lookup g _ vars0 _ happ hind (r.path, r.id) hmem
+
+/-- non-vacuity of the hypotheses above: one file mapped to two variables, spilled to disk; the run
+reaches the executor with two distinct file readers on one spill file, both positions filled, and
+the file is removed afterwards. -/
+example :
+    (run G Fixture.twoPathsSpillReq).exit = .exec
+    ∧ (run G Fixture.twoPathsSpillReq).during.readers.map (fun r => (r.id, r.part, r.file)) = [(1, 2, some 0), (0, 2, some 0)]
+    ∧ (run G Fixture.twoPathsSpillReq).during.live = [0] ∧ (run G Fixture.twoPathsSpillReq).final.live = []
+    ∧ (lookup (run G Fixture.twoPathsSpillReq).during.vars [.key "b".toList]).bind UV.uploadId? = some 1
+    ∧ (lookup (run G Fixture.twoPathsSpillReq).during.vars [.key "file".toList]).bind UV.uploadId? = some 0 := by
+  decide
+
+/-- non-vacuity of `size_limit_enforced_declared` and of the budget: a 363-byte request against
+MaxUploadSize 300 is refused when it declares its length; chunked (length unknown) it fails while
+reading. -/
+example :
+    (run G (Fixture.limitedReq 363)).exit = .tooLarge ∧ (run G (Fixture.limitedReq (-1))).exit = .partError := by
+  decide
 
 end GqlgenVerif.C10
